@@ -7,7 +7,7 @@ from ..nf import Poly, Tup, Const, NONE, TRUE, FALSE
 from ..effects import Effects
 from ..model import AnalysisError, Repo
 from ..report import VERIF
-from ..rules import run as analyse, returns, fmt, is_app, S, alias_root, root_sym
+from ..rules import conds_str, run as analyse, returns, fmt, is_app, S, alias_root, root_sym
 from . import common
 
 # documented in-place behaviour (property text + docstrings); value = reason / condition
@@ -146,6 +146,12 @@ def run(chk, repo, tier):
     chk.ob('C10-f', 'E-ownership', fc.key, 'deep copy', deep,
            'returns copy.deepcopy(self)' if deep else f'returns {", ".join(fmt(p.ret) for p in rets)} (arrays shared with the original)',
            fc.loc())
+    ff = repo.func('plane.Plane.fit_tilt')
+    _, fpaths, _ = analyse(repo, ff, config={'inplace': FALSE})
+    alias = [p for p in returns(fpaths) if root_sym(p.ret) == 'self' and not (isinstance(p.ret, Poly) and p.ret.single_atom() is not None
+                                                                               and is_app(p.ret.single_atom(), 'call:plane.Plane.copy'))]
+    chk.ob('C10-f', 'E-ownership', ff.key, 'inplace=False returns a copy on every path (also when there is nothing to fit)', not alias,
+           '; '.join(f'returns {fmt(p.ret)[:40]} when {conds_str(p)[-100:]}' for p in alias[:2]) or 'every path returns self.copy()', ff.loc())
     for key, cfg in (('plane.Plane.fit_tilt', {'inplace': FALSE}), ('plane.Plane.rescale', None),
                      ('plane.Plane.resample', None)):
         f = repo.func(key)
